@@ -1,4 +1,5 @@
 import Hive.Proofs.Ads
+import Hive.Proofs.AdsTrie
 /-!
 # C09 — authenticated map / set: contents, content-only root, faithful reopen
 
@@ -295,6 +296,79 @@ for a key that `Has` reported absent. -/
 theorem C09_old_nil_value_witness :
     let s := oldSetNil (oldSetNil { rawKeys := [], size := 0, nilLeaves := [] } [1]) [1]
     s.size = 2 ∧ s.rawKeys = [[1]] ∧ oldHasNil s [1] = false := by
+  decide
+
+/-! ## the trie itself: canonical shape instead of an assumed `rootOf`
+
+`Hive/Model/AdsTrie.lean` models the update / delete / digest algorithm of the sparse Merkle trie
+(leaf-compressed, extension nodes expanded — they do not change digests) over uninterpreted hash
+functions.  Histories: all lists of `put path value` / `del path` with paths of `n` bits. -/
+
+open SMT in
+/-- The trie implements a plain map on paths. -/
+theorem C09_trie_refines_map (n : Nat) (ops : List TOp) (hw : ∀ op ∈ ops, op.path.length = n) :
+    (runOps ops).fn = specRun ops :=
+  (runOps_spec ops hw).2
+
+open SMT in
+/-- **Canonical shape**: two well-formed tries with the same contents are the same trie. -/
+theorem C09_trie_canonical (n : Nat) (t₁ t₂ : E) (h₁ : NF n [] t₁) (h₂ : NF n [] t₂)
+    (heq : ∀ p, t₁.fn p = t₂.fn p) : t₁ = t₂ :=
+  nf_ext h₁ h₂ heq
+
+open SMT in
+/-- **History independence**: whatever the histories (orders, overwrites, delete-and-reinsert),
+equal contents give the same trie, hence the same root digest — for any hash functions. -/
+theorem C09_trie_history_independent {H : Type} (h : Hash H) (n : Nat) (ops₁ ops₂ : List TOp)
+    (hw₁ : ∀ op ∈ ops₁, op.path.length = n) (hw₂ : ∀ op ∈ ops₂, op.path.length = n)
+    (heq : ∀ p, specRun ops₁ p = specRun ops₂ p) :
+    (runOps ops₁).digest h = (runOps ops₂).digest h := by
+  obtain ⟨n₁, f₁⟩ := runOps_spec ops₁ hw₁
+  obtain ⟨n₂, f₂⟩ := runOps_spec ops₂ hw₂
+  have : runOps ops₁ = runOps ops₂ := by
+    apply nf_ext n₁ n₂
+    intro p
+    have e₁ := congrFun f₁ p
+    have e₂ := congrFun f₂ p
+    simp only [E.fn] at e₁ e₂
+    simp only [List.length_nil]
+    rw [e₁, e₂, heq p]
+  rw [this]
+
+open SMT in
+/-- What `Hive/Model/Ads.lean` assumes is a theorem here: there is a function `rootOf` of the
+contents alone such that after every history `Root() = rootOf contents`. -/
+theorem C09_trie_root_function {H : Type} (h : Hash H) (n : Nat) :
+    ∃ rootOf : (Path → Option Val) → H, ∀ ops : List TOp, (∀ op ∈ ops, op.path.length = n) →
+      (runOps ops).digest h = rootOf (specRun ops) := by
+  classical
+  refine ⟨fun f => if hex : ∃ ops : List TOp, (∀ op ∈ ops, op.path.length = n) ∧ specRun ops = f
+      then (runOps (Classical.choose hex)).digest h else h.zero, ?_⟩
+  intro ops hw
+  have hex : ∃ ops' : List TOp, (∀ op ∈ ops', op.path.length = n) ∧ specRun ops' = specRun ops := ⟨ops, hw, rfl⟩
+  simp only [hex, dite_true]
+  obtain ⟨hw', he⟩ := Classical.choose_spec hex
+  exact C09_trie_history_independent h n ops _ hw hw' (fun p => (congrFun he p).symm)
+
+open SMT in
+/-- **Different contents give different roots** when the hash functions are collision free (an
+explicit hypothesis; `freeHash_collisionFree` shows it is satisfiable). -/
+theorem C09_trie_root_injective {H : Type} (h : Hash H) (cf : CollisionFree h) (n : Nat) (ops₁ ops₂ : List TOp)
+    (hw₁ : ∀ op ∈ ops₁, op.path.length = n) (hw₂ : ∀ op ∈ ops₂, op.path.length = n)
+    (hroot : (runOps ops₁).digest h = (runOps ops₂).digest h) :
+    ∀ p, specRun ops₁ p = specRun ops₂ p := by
+  intro p
+  rw [← (runOps_spec ops₁ hw₁).2, ← (runOps_spec ops₂ hw₂).2, digest_inj cf _ _ hroot]
+
+open SMT in
+/-- Non-vacuity: with the free hash, two different histories over 3-bit paths reach one trie whose
+lone leaf moved up after the deletes, and a third one a different trie. -/
+example :
+    runOps [.put [true, false, true] [1], .put [true, false, false] [2], .put [false, true, true] [3],
+            .del [true, false, false], .del [false, true, true]]
+      = runOps [.put [true, false, true] [9], .put [true, false, true] [1]] ∧
+    (runOps [.put [true, false, true] [1], .put [true, false, false] [2]]).digest freeHash
+      = .inner .nil (.inner (.inner (.leaf [true, false, false] [2]) (.leaf [true, false, true] [1])) .nil) := by
   decide
 
 /-! ## the hypotheses are satisfiable; a concrete non-trivial run -/
